@@ -721,6 +721,64 @@ func VReplayCat(task engine.SeqTask) (res engine.SeqResult) {
 	return
 }
 
+// vGCLarge: a deleted dataset with more keys than one collection batch of the garbage collector (10000): n entities
+// with one reference each are written to A, A is deleted, one GC run, then no raw key may carry A's internal id and
+// the survivor B is untouched.
+func vGCLarge(n int) (res engine.SeqResult) {
+	defer func() {
+		if r := recover(); r != nil {
+			res.Viol = append(res.Viol, engine.Violation{Key: "panic|" + fmt.Sprint(r), What: fmt.Sprintf("panic in the large garbage collection: %v", r)})
+		}
+	}()
+	w := VOpenWorld(VNewScratchDir("gclarge"))
+	defer w.Destroy()
+	h := w.NewHist()
+	chk := &VCheck{H: h, Last: fmt.Sprintf("delete of a dataset with %d entities ; gc", n)}
+	if err := h.EnsureDatasets("A", "B"); err != nil {
+		res.HarnessEr = err.Error()
+		return
+	}
+	pool := model.Pool(0)
+	r1 := model.PoolIndex(pool, "r1")
+	var ids []string
+	for i := 0; i < n; i += 1000 {
+		var ents []VEnt
+		for j := i; j < i+1000 && j < n; j++ {
+			id := fmt.Sprintf("g%d", j+1)
+			ids = append(ids, id)
+			ents = append(ents, VEnt{ID: id, C: r1})
+		}
+		if err := h.ApplyWrite(VOp{K: "batch", DS: "A", Ents: ents}); err != nil {
+			res.HarnessEr = "write: " + err.Error()
+			return
+		}
+	}
+	if err := h.ApplyWrite(VOp{K: "batch", DS: "B", Ents: []VEnt{{"e1", r1}, {"g1", model.PoolIndex(pool, "v1")}}}); err != nil {
+		res.HarnessEr = "write: " + err.Error()
+		return
+	}
+	dead := w.Dsm.GetDataset(h.DsName("A")).InternalID
+	if err := w.Dsm.DeleteDataset(h.DsName("A")); err != nil {
+		chk.fail("C07:delete-rejected", err.Error(), nil)
+	}
+	h.M.Delete("A")
+	surv := append([]string{"e1", "e2", "e3", "e4"}, ids[:3]...)
+	before := h.CanonOpt(surv, []string{"B"}, "", true)
+	if err := NewGarbageCollector(w.Store, w.Env).Cleandeleted(); err != nil {
+		chk.fail("C07:gc-error", "garbage collection failed: "+err.Error(), nil)
+	}
+	chk.Checks++
+	if after := h.CanonOpt(surv, []string{"B"}, "", true); after != before {
+		chk.fail("C07:gc-touched-survivors", "garbage collection changed raw keys of datasets that were not deleted", nil)
+	}
+	rids := h.ridsOf(append(append([]string{}, ids...), "e1", "e2", "e3", "e4"))
+	if k := h.countKeysForDataset(dead, rids); k != 0 {
+		chk.fail("C07:gc-leftover", fmt.Sprintf("after one garbage collection run %d raw keys still carry the internal id of the deleted dataset (%d entities with one reference each)", k, n), nil)
+	}
+	res.Viol, res.Checks, res.Key = chk.Viol, chk.Checks, "gclarge"
+	return
+}
+
 // vCatLarge: a catalogue larger than the listing page sizes used inside the manager (1000): n datasets are created,
 // some deleted and re-created, one written to; then the full catalogue comparison.
 func vCatLarge(n int) (res engine.SeqResult) {
@@ -771,6 +829,15 @@ func vCatLarge(n int) (res engine.SeqResult) {
 }
 
 func init() {
+	engine.RegisterWorker("gc-large", func(args []string) {
+		engine.ServeWorker(func(task []byte) interface{} {
+			var t struct {
+				N int `json:"n"`
+			}
+			_ = json.Unmarshal(task, &t)
+			return vGCLarge(t.N)
+		})
+	})
 	engine.RegisterWorker("cat-large", func(args []string) {
 		engine.ServeWorker(func(task []byte) interface{} {
 			var t struct {
